@@ -364,7 +364,13 @@ fn history(jj_bin: &Path, tmp_root: &Path, h: u64, mut r: Rng, steps: usize, tra
                     }
                 };
                 // is the restored working-copy commit immutable under the command's configuration?  (input of the model)
-                let imm = if want_imm { 1 } else { 0 };
+                // input of the model: the working-copy portions whose commit (for the workspace running the command) is
+                // immutable under this command's configuration — with `immutable_heads()=all()` every portion that has one
+                let imm: String = if !want_imm { "-".to_string() } else {
+                    let mut ids: Vec<u64> = log.ops.iter().filter(|o| o.view.wc_commit_ids.keys().any(|k| k.as_str() == "default")).map(|o| o.pv[6]).collect();
+                    ids.sort(); ids.dedup();
+                    show_list(&ids)
+                };
                 let upto = match own { Some(i) => i, None => log.ops.len() };
                 let logtxt = log.show(upto);
                 let (req, kind): (String, &'static str) = match &t {
